@@ -38,6 +38,13 @@ type GraphOpts struct {
 	// by an ES module and required by a CommonJS module of the same bundle (dual package hazard path).
 	// Only for oracles that do not compare with native Node (Node ignores "module").
 	DualPkg bool
+	// CollidingNames: every non-entry ES module declares top-level bindings called x and x2 (exported
+	// under unique aliases) so that chunks shared by several entry points hold colliding symbol names.
+	CollidingNames bool
+	// NoTopLevelMutation: exported mutator functions are only called from the late functions, so that
+	// values read by module top-level code do not depend on the relative order of other modules
+	// (code splitting may legitimately change that order).
+	NoTopLevelMutation bool
 }
 
 type GModule struct {
@@ -291,6 +298,9 @@ func GenGraph(r *Rand, o GraphOpts) *Graph {
 				stmt := fmt.Sprintf("p(\"m%d:named\", %s);", m.Index, strings.Join(reads, ", "))
 				if im.Back {
 					late = append(late, stmt)
+				} else if o.NoTopLevelMutation {
+					late = append(late, stmt)
+					fmt.Fprintf(&body, "p(\"m%d:named-typeof\", typeof %s);\n", m.Index, alias(t.Exports[0]))
 				} else {
 					body.WriteString(stmt + "\n")
 					// live binding check: call a mutator of the target (if any) and re-read
@@ -350,6 +360,9 @@ func GenGraph(r *Rand, o GraphOpts) *Graph {
 				fmt.Fprintf(&sb, "export default class D%d {}\n", m.Index)
 			}
 		}
+		if o.CollidingNames && m.Index >= ents {
+			fmt.Fprintf(&sb, "let q = p(\"m%d:q\", %d);\nlet q2 = %d;\nfunction bumpq() { q++; q2 += 2; }\nexport { q as cx%d, q2 as cy%d, bumpq as cb%d };\n", m.Index, m.Index, m.Index*10, m.Index, m.Index, m.Index)
+		}
 		// late function: called by the entry once every module has been evaluated
 		fmt.Fprintf(&sb, "export function late%d() { %s }\n", m.Index, strings.Join(late, " "))
 		if o.AllowDyn && !dynUsed && m.Index < ents && r.Chance(1, 2) {
@@ -361,7 +374,9 @@ func GenGraph(r *Rand, o GraphOpts) *Graph {
 			if !o.AvoidInPlaceOrder && len(mods) > 1 && r.Bool() {
 				// import() of a module that is (possibly) also imported statically
 				t := mods[1+r.Intn(len(mods)-1)]
-				if !t.CJS {
+				// a module importing ITSELF dynamically under --splitting prints a call to a wrapper
+				// that is never generated (known finding c10-self-dynamic-import): not generated here
+				if !t.CJS && t.Index != m.Index {
 					fmt.Fprintf(&sb, "export const dyn%d = import(\"./%s\").then(ns => p(\"m%d:dyn\", Object.keys(ns).sort(), ns.%s), e => p(\"m%d:dyn-err\", e));\n", m.Index, t.Path, m.Index, t.Exports[0], m.Index)
 					g.stat("dynamic-import-of-static")
 					fmt.Fprintf(&sb, "p(\"m%d:end\");\n", m.Index)
@@ -417,10 +432,16 @@ func GenGraph(r *Rand, o GraphOpts) *Graph {
 		for _, i := range idx {
 			// importing late functions adds edges; they are harmless (target already reachable)
 			fmt.Fprintf(&sb, "import { late%d as L%d_%d } from \"./%s\";\n", i, e, i, mods[i].Path)
+			if o.CollidingNames && i >= ents {
+				fmt.Fprintf(&sb, "import { cx%d as CX%d_%d, cy%d as CY%d_%d, cb%d as CB%d_%d } from \"./%s\";\n", i, e, i, i, e, i, i, e, i, mods[i].Path)
+			}
 		}
 		sb.WriteString(m.Source)
 		for _, i := range idx {
 			fmt.Fprintf(&sb, "L%d_%d();\n", e, i)
+			if o.CollidingNames && i >= ents {
+				fmt.Fprintf(&sb, "p(\"m%d:collide\", CX%d_%d, CY%d_%d); CB%d_%d(); p(\"m%d:collide2\", CX%d_%d, CY%d_%d);\n", e, e, i, e, i, e, i, e, e, i, e, i)
+			}
 		}
 		fmt.Fprintf(&sb, "late%d();\n", e)
 		m.Source = sb.String()
